@@ -2,16 +2,20 @@
    kind = property*100 + sub-model.  [run] = what the model says the implementation must
    output on this input; [mon] = the property's monitor applied to the implementation's own
    observed output. *)
-From RainV Require Import Lib Tier.
+From RainV Require Import Lib Tier Geometry.
 
 Definition run (kind : Z) (inp : list Z) : list Z :=
   match kind with
+  | 201 => run_new_pieces inp
+  | 202 => run_calc_blocks inp
   | 1601 => run_tier true inp
   | _ => [-999]
   end.
 
 Definition mon (kind : Z) (inp obs : list Z) : bool :=
   match kind with
+  | 201 => mon_new_pieces inp obs
+  | 202 => mon_calc_blocks inp obs
   | 1601 => mon_tier inp obs
   | _ => false
   end.
